@@ -81,17 +81,25 @@ POLARS_WS = [" ", "\t", "\n", "\r", "\x0b", "\x0c"]
 SQLITE_TRIM = [" "]
 
 
-def strip_ws(c: Cell, L: int, chars=None) -> Cell:
+def strip_ws(c: Cell, L: int, chars=None, side=None) -> Cell:
+    """strip the characters `chars` from both ends.  Relational encoding (the solver
+    handles it far better than an unrolled loop): s = l ++ r ++ t with l, t made of strip
+    characters only and r neither starting nor ending with one; the decomposition is
+    unique, so the fresh variables are a definitional extension (constraints -> `side`)."""
     if c.ty == NULLT:
         return K.null_of(STR)
     chars = chars or POLARS_WS
-    s = c.val
-    for _ in range(L):
-        s = K.If(K.And(z3.Length(s) > 0, _is_space(_char_at(s, 0), chars)), z3.SubString(s, 1, z3.Length(s) - 1), s)
-    for _ in range(L):
-        ln = z3.Length(s)
-        s = K.If(K.And(ln > 0, _is_space(_char_at(s, ln - 1), chars)), z3.SubString(s, 0, ln - 1), s)
-    return Cell(STR, c.null, s)
+    assert side is not None
+    ws = z3.Union(*[z3.Re(z3.StringVal(ch)) for ch in chars]) if len(chars) > 1 else z3.Re(z3.StringVal(chars[0]))
+    anyc = z3.Full(z3.ReSort(z3.StringSort()))
+    l, r, t = (K.fresh(n, z3.StringSort()) for n in ("stripl", "stripr", "stript"))
+    side += [
+        c.val == z3.Concat(l, r, t),
+        z3.InRe(l, z3.Star(ws)),
+        z3.InRe(t, z3.Star(ws)),
+        z3.Not(z3.InRe(r, z3.Union(z3.Concat(ws, anyc), z3.Concat(anyc, ws)))),
+    ]
+    return Cell(STR, c.null, r)
 
 
 def _replace_all(s, L, match_at, plen, rep):
